@@ -53,6 +53,24 @@ def piecesJoin : List Piece → Bool
   | a :: b :: rest => a.p3 == b.p0 && piecesJoin (b :: rest)
   | _ => true
 
+/-- every crossing of the corridor boundary by the pieces (located by bisection between two sample points on different
+    sides) lies within 0.04 of a rectangle corner: the fitter ignores intersections closer than √0.001 ≈ 0.032 to the
+    end points of a boundary segment -/
+def crossingsNearCorners (rects : Corridor) (pieces : List Piece) : Bool :=
+  let inside := fun (p : Pt) => rects.any (ptIn · p)
+  let corners : List Pt := rects.flatMap fun R => [(R.l, R.top), (R.r, R.top), (R.l, R.bot), (R.r, R.bot)]
+  let near := fun (p : Pt) => corners.any fun c => (p.1 - c.1) * (p.1 - c.1) + (p.2 - c.2) * (p.2 - c.2) ≤ (1 / 25) * (1 / 25)
+  let ts : List Rat := (List.range 257).map fun (k : Nat) => ((k : Nat) : Rat) / 256
+  pieces.all fun c =>
+    (ts.zip ts.tail).all fun (a, b) =>
+      let ia := inside (c.at a)
+      if ia == inside (c.at b) then true
+      else
+        let (lo, hi) := (List.range 12).foldl (fun (acc : Rat × Rat) _ =>
+          let m := (acc.1 + acc.2) / 2
+          if inside (c.at m) == ia then (m, acc.2) else (acc.1, m)) (a, b)
+        near (c.at lo) || near (c.at hi)
+
 def evalFitSpline (j obs : Json) : E (List (String × Bool × String)) := do
   let arg ← field j "arg"
   let rects ← parseRects (← field arg "rects")
@@ -84,7 +102,9 @@ def evalFitSpline (j obs : Json) : E (List (String × Bool × String)) := do
       let top := (rects.head?.map (·.top)).getD 0
       let bot := (rects.getLast?.map (·.bot)).getD 0
       let beyondEnds := outPts.all fun p => p.2 < top || p.2 > bot
-      let kind := if beyondEnds then "beyond the outer horizontal edge that carries the path's end point" else "through a side or an inner corner"
+      let kind := if beyondEnds then "beyond the outer horizontal edge that carries the path's end point"
+        else if crossingsNearCorners rects pieces then "slipping through the fitter's vertex tolerance (every crossing of the corridor boundary lies within 0.04 of a rectangle corner)"
+        else "through a side or an inner corner"
       let mut out := [("C20", ends && joins && !outside,
         if !ends then "pieces do not start/end at the path's end points" else if !joins then "pieces do not join end to end"
         else s!"a sampled point of the curve lies outside the corridor grown by 0.05: {kind}")]
